@@ -28,15 +28,15 @@ ASSUMPTIONS = [
     'only the second direction is asserted',
 ]
 TRUSTED = ['pbt/fakezk.py', 'pbt/mastersim.py']
-BUDGET = {'quick': 2400, 'thorough': 128000}
+BUDGET = {'quick': 3200, 'thorough': 128000}
 
 PROFILE = {
     'weights': {'restart': 8, 'reboot': 2, 'down': 3, 'up': 2, 'idg': 2,
-                'cycle': 8, 'app': 12, 'state': 5, 'downseq': 2},
+                'cycle': 8, 'app': 12, 'state': 5, 'downseq': 2, 'allocs': 2},
     'force': ['restart', 'state'],
     'pre': (4, 12),
     'min_servers': 2,
-    'max_parts': 1,
+    'max_parts': 2,
 }
 
 
